@@ -35,9 +35,9 @@ pub(crate) fn ty(p: &mut Parser) {
 /// Entry point for parsing a standalone type: the syntax tree always needs a root node,
 /// even when no type could be parsed.
 pub(crate) fn standalone_ty(p: &mut Parser) {
-    // Leading ignored tokens have no parent node to be attached to.
+    // Leading ignored tokens are queued here and attached inside the root node
+    // when it is started.
     p.skip_ignored();
-    p.pending.clear();
     match parse(p) {
         Ok(_) => (),
         Err(token) => {
